@@ -1,9 +1,18 @@
 ---------------------------- MODULE Throttle_Trace ----------------------------
 (***************************************************************************)
 (* Property C10 judged on request-level traces of the REAL throttling      *)
-(* checker (harness/cmd/c10): inv(p, arr, iv, big)  ret(p, res, w)  step   *)
-(* tick  end, in the total order of the execution.  At the end of a trace  *)
-(* the operators of ThrottleProp decide Spacing, BoundedWait and           *)
+(* checker (harness/cmd/c10):                                              *)
+(*   new(tr, maxq, tol, si [, rule])  inv(p, arr, b, tn, td | mem)         *)
+(*   ret(p, res, w)  step  tick  end                                       *)
+(* in the total order of the execution.  Every invocation carries the      *)
+(* batch and the THRESHOLD IN FORCE FOR THAT REQUEST: either the fraction  *)
+(* tn/td handed to the check (Direct rule: the rule's threshold; direct    *)
+(* DoCheck calls: the argument of the call), or - for a MemoryAdaptive     *)
+(* rule - the memory usage `mem' published before the request, from which  *)
+(* the spec derives the threshold (ThrottleProp!MemThr).  The spacing owed *)
+(* by a request is computed by the spec from that threshold and the        *)
+(* statistic interval `si' of the trace (ThrottleProp!Iv).  At the end of  *)
+(* a trace the operators of ThrottleProp decide Spacing, BoundedWait and   *)
 (* NoSpuriousReject (with the trace's float slack `tol').                  *)
 (***************************************************************************)
 EXTENDS ThrottleProp, Sequences, TLC, Json
@@ -15,6 +24,7 @@ Ev == Trace[l]
 IsEvent(op) == l <= Len(Trace) /\ Ev.op = op /\ l' = l + 1
 Procs == 1..64
 None == [id |-> 0]
+NoRule == [low |-> 0, high |-> 0, lwm |-> 0, hwm |-> 0]
 
 Judge(ok, expected) ==
     IF failed \/ ok THEN failed' = failed
@@ -23,14 +33,20 @@ Judge(ok, expected) ==
 
 TNew ==
     /\ IsEvent("new")
-    /\ g' = [tr |-> Ev.tr, maxq |-> Ev.maxq, tol |-> Ev.tol]
+    /\ g' = [tr |-> Ev.tr, maxq |-> Ev.maxq, tol |-> Ev.tol, si |-> Ev.si,
+             rule |-> IF "rule" \in DOMAIN Ev
+                      THEN [low |-> Ev.rule.low, high |-> Ev.rule.high, lwm |-> Ev.rule.lwm, hwm |-> Ev.rule.hwm]
+                      ELSE NoRule]
     /\ seq' = 0 /\ reqs' = {} /\ pend' = [p \in Procs |-> None] /\ failed' = FALSE
+
+\* the threshold in force for the request being invoked
+ThrOf(e) == IF "mem" \in DOMAIN e THEN MemThr(g.rule, e.mem) ELSE <<e.tn, e.td>>
 
 TInv ==
     /\ IsEvent("inv")
     /\ seq' = seq + 1
-    /\ pend' = [pend EXCEPT ![Ev.p] = [id |-> Ev.p, arr |-> Ev.arr, iv |-> Ev.iv, res |-> "pending", w |-> 0,
-                                       inv |-> seq + 1, ret |-> 0, big |-> Ev.big]]
+    /\ pend' = [pend EXCEPT ![Ev.p] = [id |-> Ev.p, arr |-> Ev.arr, b |-> Ev.b, tn |-> ThrOf(Ev)[1], td |-> ThrOf(Ev)[2],
+                                       res |-> "pending", w |-> 0, inv |-> seq + 1, ret |-> 0]]
     /\ UNCHANGED <<g, reqs, failed>>
 
 TRet ==
@@ -43,14 +59,18 @@ TRet ==
 TStep == IsEvent("step") /\ UNCHANGED <<g, seq, reqs, pend, failed>>
 TTick == IsEvent("tick") /\ UNCHANGED <<g, seq, reqs, pend, failed>>
 
+\* what the spec holds each request to (reported with a rejected trace)
+Owes(rs, si) == { [id |-> r.id, iv |-> Iv(r, si), big |-> Big(r)] : r \in rs }
+
 TEnd ==
     /\ IsEvent("end")
-    /\ Judge(Spacing(reqs) /\ BoundedWait(reqs, g.maxq) /\ NoSpuriousReject(reqs, g.maxq, g.tol),
-             [spacing |-> Spacing(reqs), boundedwait |-> BoundedWait(reqs, g.maxq),
-              nospurious |-> NoSpuriousReject(reqs, g.maxq, g.tol), reqs |-> reqs])
+    /\ Judge(Spacing(reqs, g.si) /\ BoundedWait(reqs, g.maxq) /\ NoSpuriousReject(reqs, g.si, g.maxq, g.tol),
+             [spacing |-> Spacing(reqs, g.si), boundedwait |-> BoundedWait(reqs, g.maxq),
+              nospurious |-> NoSpuriousReject(reqs, g.si, g.maxq, g.tol), owes |-> Owes(reqs, g.si), reqs |-> reqs])
     /\ UNCHANGED <<g, seq, reqs, pend>>
 
-TInit == l = 1 /\ g = [tr |-> 0, maxq |-> 0, tol |-> 0] /\ seq = 0 /\ reqs = {} /\ pend = [p \in Procs |-> None] /\ failed = FALSE
+TInit == l = 1 /\ g = [tr |-> 0, maxq |-> 0, tol |-> 0, si |-> 1, rule |-> NoRule] /\ seq = 0 /\ reqs = {}
+         /\ pend = [p \in Procs |-> None] /\ failed = FALSE
 TNext == TNew \/ TInv \/ TRet \/ TStep \/ TTick \/ TEnd
 TSpec == TInit /\ [][TNext]_tvars
 =============================================================================
